@@ -31,8 +31,11 @@ CONSTANTS
   MaxNow,       \* clock bound
   MaxNet,       \* datagrams in flight per direction
   DupBudget, LossBudget, InjBudget,
+  AdvReq,       \* the adversary also forges tunnelling requests (C04)
+  GwFaultBudget,\* how often the gateway may answer a heartbeat / connect request badly or not at all (C09)
   MaxEpoch,     \* connection epochs
   EnableHB, EnableClose, EnableG2C, Adversary, UseTCP,
+  AckChanCheck, \* TRUE: requestTunnel also compares the acknowledgement's channel (the code since the second fix: commit)
   ChanUnderLock \* TRUE: requestConn assigns the channel under seqMu (the code since the fix: commit); FALSE: before the lock (the pinned tree)
 
 VARIABLES
@@ -51,19 +54,19 @@ VARIABLES
   ackOpen, inbOpen, done, once, closer,
   starting, queued, reader, got, delivered,   \* pushInbound goroutines / channel queue / application
   rxq, sockOpen,
-  c2g, g2c, dups, losses, injs, injs,
+  c2g, g2c, dups, losses, injs, gwf, injs,
   gw,           \* gateway: [conn, ch, expect, seq, pend]
   bus, nsend, ntele, nid, epoch,
   ev, act
 
 vars == <<now, srv, chan, sndSeq, rcvSeq, conn, mu, muq, snd, offers, hbNext, hb, hbOffers, failSig,
           ackOpen, inbOpen, done, once, closer, starting, queued, reader, got, delivered, rxq, sockOpen,
-          c2g, g2c, dups, losses, injs, gw, bus, nsend, ntele, nid, epoch, ev, act>>
+          c2g, g2c, dups, losses, injs, gwf, gw, bus, nsend, ntele, nid, epoch, ev, act>>
 
 \* the variables that determine future behaviour (history and labels hidden)
 view == <<now, srv, chan, sndSeq, rcvSeq, conn, mu, muq, snd, offers, hbNext, hb, hbOffers, failSig,
           ackOpen, inbOpen, done, once, closer, starting, queued, reader, got, rxq, sockOpen,
-          c2g, g2c, dups, losses, injs, gw, nsend, ntele, epoch>>
+          c2g, g2c, dups, losses, injs, gwf, gw, nsend, ntele, epoch>>
 
 NoEv == [k |-> "none", t |-> 0, g |-> -1, svc |-> "", ch |-> -1, seq |-> -1, st |-> -1, pid |-> -1,
          hex |-> "", a |-> -1, b |-> -1, s |-> ""]
@@ -100,7 +103,7 @@ Init ==
   /\ ackOpen = TRUE /\ inbOpen = TRUE /\ done = FALSE /\ once = FALSE /\ closer = "none"
   /\ starting = {} /\ queued = << >> /\ reader = "idle" /\ got = -1 /\ delivered = << >>
   /\ rxq = << >> /\ sockOpen = TRUE
-  /\ c2g = BagAdd(EmptyBag, Frame("ConnReq", -1, 0, -1, -1)) /\ g2c = EmptyBag /\ dups = 0 /\ losses = 0 /\ injs = 0
+  /\ c2g = BagAdd(EmptyBag, Frame("ConnReq", -1, 0, -1, -1)) /\ g2c = EmptyBag /\ dups = 0 /\ losses = 0 /\ injs = 0 /\ gwf = 0
   /\ gw = [conn |-> FALSE, ch |-> 0, expect |-> 0, seq |-> 0, pend |-> -1, att |-> -1]
   /\ bus = << >> /\ nsend = 0 /\ ntele = 0 /\ nid = 0 /\ epoch = 0
   /\ ev = FrEv("Out", Frame("ConnReq", -1, 0, -1, -1))
@@ -119,7 +122,7 @@ ConnResend ==
   /\ conn' = [conn EXCEPT !.next = now + R]
   /\ act' = Act("timer", 0)
   /\ UNCHANGED <<now, srv, chan, sndSeq, rcvSeq, mu, muq, snd, offers, hbNext, hb, hbOffers, failSig, ackOpen, inbOpen, done,
-                 once, closer, starting, queued, reader, got, delivered, rxq, sockOpen, g2c, dups, losses, injs, gw, bus, nsend, ntele, nid, epoch>>
+                 once, closer, starting, queued, reader, got, delivered, rxq, sockOpen, g2c, dups, losses, injs, gwf, gw, bus, nsend, ntele, nid, epoch>>
 
 \* serve() ends: close(inbound), close(ack)
 ServeExitTo(s) ==
@@ -134,7 +137,7 @@ ConnTimeout ==
   /\ ServeExitTo([pc |-> "gone", a |-> -1, b |-> -1])
   /\ ev' = NoEv /\ act' = Act("timer", 0)
   /\ UNCHANGED <<now, chan, sndSeq, rcvSeq, conn, mu, muq, snd, hbNext, hb, hbOffers, failSig, done, once, closer, got,
-                 delivered, rxq, sockOpen, c2g, g2c, dups, losses, injs, gw, bus, nsend, ntele, nid, epoch>>
+                 delivered, rxq, sockOpen, c2g, g2c, dups, losses, injs, gwf, gw, bus, nsend, ntele, nid, epoch>>
 
 \* take a frame from the socket while connecting
 ConnTake ==
@@ -152,7 +155,7 @@ ConnTake ==
         ELSE UNCHANGED <<srv, chan, muq, inbOpen, ackOpen, queued, starting, reader, offers>>
   /\ act' = Act("take", 0)
   /\ UNCHANGED <<now, sndSeq, rcvSeq, conn, mu, snd, hbNext, hb, hbOffers, failSig, done, once, closer, got,
-                 delivered, sockOpen, c2g, g2c, dups, losses, injs, gw, bus, nsend, ntele, nid, epoch>>
+                 delivered, sockOpen, c2g, g2c, dups, losses, injs, gwf, gw, bus, nsend, ntele, nid, epoch>>
 
 \* seqMu.Lock(); seqNumber = 0; Unlock(); return nil -> process() starts
 ConnLock ==
@@ -167,7 +170,7 @@ ConnLock ==
   /\ epoch' = epoch + 1
   /\ ev' = NoEv /\ act' = Act("internal", 0)
   /\ UNCHANGED <<now, conn, mu, snd, offers, ackOpen, inbOpen, done, once, closer, starting, queued, reader, got, delivered,
-                 rxq, sockOpen, c2g, g2c, dups, losses, injs, gw, bus, nsend, ntele, nid>>
+                 rxq, sockOpen, c2g, g2c, dups, losses, injs, gwf, gw, bus, nsend, ntele, nid>>
 
 -----------------------------------------------------------------------------
 (* requestTunnel *)
@@ -180,7 +183,7 @@ AppSend(g) ==
   /\ ev' = SimEv("SendCall", g, 100 + nsend, "")
   /\ act' = Act("send", g)
   /\ UNCHANGED <<now, srv, chan, sndSeq, rcvSeq, conn, mu, offers, hbNext, hb, hbOffers, failSig, ackOpen, inbOpen, done, once,
-                 closer, starting, queued, reader, got, delivered, rxq, sockOpen, c2g, g2c, dups, losses, injs, gw, bus, ntele, nid, epoch>>
+                 closer, starting, queued, reader, got, delivered, rxq, sockOpen, c2g, g2c, dups, losses, injs, gwf, gw, bus, ntele, nid, epoch>>
 
 \* Lock + build request + first transmission (one critical section, the lock stays held)
 SendFirstTx(g) ==
@@ -193,7 +196,7 @@ SendFirstTx(g) ==
                                       next |-> now + R, dead |-> now + T]]
   /\ act' = Act("internal", g)
   /\ UNCHANGED <<now, srv, chan, sndSeq, rcvSeq, conn, offers, hbNext, hb, hbOffers, failSig, ackOpen, inbOpen, done, once, closer,
-                 starting, queued, reader, got, delivered, rxq, sockOpen, g2c, dups, losses, injs, gw, bus, nsend, ntele, nid, epoch>>
+                 starting, queued, reader, got, delivered, rxq, sockOpen, g2c, dups, losses, injs, gwf, gw, bus, nsend, ntele, nid, epoch>>
 
 Return(g, res) ==
   /\ snd' = [snd EXCEPT ![g] = Idle]
@@ -204,7 +207,7 @@ SendTcpReturn(g) ==
   /\ snd[g].st = "tcpret"
   /\ Return(g, "ok") /\ act' = Act("internal", g)
   /\ UNCHANGED <<now, muq, srv, chan, sndSeq, rcvSeq, conn, offers, hbNext, hb, hbOffers, failSig, ackOpen, inbOpen, done, once, closer,
-                 starting, queued, reader, got, delivered, rxq, sockOpen, c2g, g2c, dups, losses, injs, gw, bus, nsend, ntele, nid, epoch>>
+                 starting, queued, reader, got, delivered, rxq, sockOpen, c2g, g2c, dups, losses, injs, gwf, gw, bus, nsend, ntele, nid, epoch>>
 
 SendResend(g) ==
   /\ snd[g].st = "waiting" /\ snd[g].next = now
@@ -212,39 +215,39 @@ SendResend(g) ==
   /\ snd' = [snd EXCEPT ![g].next = now + R]
   /\ act' = Act("timer", g)
   /\ UNCHANGED <<now, muq, srv, chan, sndSeq, rcvSeq, conn, mu, offers, hbNext, hb, hbOffers, failSig, ackOpen, inbOpen, done, once,
-                 closer, starting, queued, reader, got, delivered, rxq, sockOpen, g2c, dups, losses, injs, gw, bus, nsend, ntele, nid, epoch>>
+                 closer, starting, queued, reader, got, delivered, rxq, sockOpen, g2c, dups, losses, injs, gwf, gw, bus, nsend, ntele, nid, epoch>>
 
 SendTimeout(g) ==
   /\ snd[g].st = "waiting" /\ snd[g].dead = now
   /\ Return(g, "timeout") /\ act' = Act("timer", g)
   /\ UNCHANGED <<now, muq, srv, chan, sndSeq, rcvSeq, conn, offers, hbNext, hb, hbOffers, failSig, ackOpen, inbOpen, done, once, closer,
-                 starting, queued, reader, got, delivered, rxq, sockOpen, c2g, g2c, dups, losses, injs, gw, bus, nsend, ntele, nid, epoch>>
+                 starting, queued, reader, got, delivered, rxq, sockOpen, c2g, g2c, dups, losses, injs, gwf, gw, bus, nsend, ntele, nid, epoch>>
 
 \* an acknowledgement relayed by handleTunnelRes is consumed by the waiting sender
 SendTakeAck(g) ==
   /\ snd[g].st = "waiting"
   /\ \E o \in offers :
        /\ offers' = offers \ {o}
-       /\ IF o.seq # sndSeq
-          THEN /\ UNCHANGED <<snd, mu, sndSeq>> /\ ev' = NoEv      \* ignore mismatching sequence numbers
+       /\ IF o.seq # sndSeq \/ (AckChanCheck /\ o.ch # chan)
+          THEN /\ UNCHANGED <<snd, mu, sndSeq>> /\ ev' = NoEv      \* ignore mismatching sequence numbers / stale channels
           ELSE /\ sndSeq' = (sndSeq + 1) % M
                /\ Return(g, IF o.st = 0 THEN "ok" ELSE "rejected")
   /\ act' = Act("internal", g)
   /\ UNCHANGED <<now, muq, srv, chan, rcvSeq, conn, hbNext, hb, hbOffers, failSig, ackOpen, inbOpen, done, once, closer,
-                 starting, queued, reader, got, delivered, rxq, sockOpen, c2g, g2c, dups, losses, injs, gw, bus, nsend, ntele, nid, epoch>>
+                 starting, queued, reader, got, delivered, rxq, sockOpen, c2g, g2c, dups, losses, injs, gwf, gw, bus, nsend, ntele, nid, epoch>>
 
 SendAckClosed(g) ==
   /\ snd[g].st = "waiting" /\ ~ackOpen
   /\ Return(g, "terminated") /\ act' = Act("internal", g)
   /\ UNCHANGED <<now, muq, srv, chan, sndSeq, rcvSeq, conn, offers, hbNext, hb, hbOffers, failSig, ackOpen, inbOpen, done, once, closer,
-                 starting, queued, reader, got, delivered, rxq, sockOpen, c2g, g2c, dups, losses, injs, gw, bus, nsend, ntele, nid, epoch>>
+                 starting, queued, reader, got, delivered, rxq, sockOpen, c2g, g2c, dups, losses, injs, gwf, gw, bus, nsend, ntele, nid, epoch>>
 
 \* relay goroutine gives up after the resend interval, or when done is closed
 AckOfferExpire ==
   /\ \E o \in offers : (o.exp = now \/ done) /\ offers' = offers \ {o}
   /\ ev' = NoEv /\ act' = Act("timer", 0)
   /\ UNCHANGED <<now, srv, chan, sndSeq, rcvSeq, conn, mu, muq, snd, hbNext, hb, hbOffers, failSig, ackOpen, inbOpen, done, once, closer,
-                 starting, queued, reader, got, delivered, rxq, sockOpen, c2g, g2c, dups, losses, injs, gw, bus, nsend, ntele, nid, epoch>>
+                 starting, queued, reader, got, delivered, rxq, sockOpen, c2g, g2c, dups, losses, injs, gwf, gw, bus, nsend, ntele, nid, epoch>>
 
 -----------------------------------------------------------------------------
 (* process(): one select arm per action *)
@@ -270,7 +273,7 @@ ProcTake ==
                /\ srv' = [pc |-> "ackout", a |-> f.seq, b |-> -1]
                /\ UNCHANGED <<rcvSeq, offers, hbOffers>>
           [] f.svc = "TunnelRes" /\ f.ch = chan ->
-               /\ offers' = offers \cup {[seq |-> f.seq, st |-> f.st, exp |-> now + R]}
+               /\ offers' = offers \cup {[seq |-> f.seq, st |-> f.st, exp |-> now + R, ch |-> f.ch]}
                /\ UNCHANGED <<srv, rcvSeq, hbOffers>>
           [] f.svc = "ConnStateRes" /\ f.ch = chan ->
                /\ hbOffers' = hbOffers \cup {[st |-> f.st, exp |-> now + R]}
@@ -286,7 +289,7 @@ ProcTake ==
   /\ act' = Act("take", 0)
   /\ UNCHANGED <<now, chan, sndSeq, conn, mu, muq, snd, hbNext, hb, failSig, ackOpen, inbOpen, done, once, closer,
                  starting, queued, reader, got, delivered,
-                 sockOpen, c2g, g2c, dups, losses, injs, gw, bus, nsend, ntele, epoch>>
+                 sockOpen, c2g, g2c, dups, losses, injs, gwf, gw, bus, nsend, ntele, epoch>>
 
 \* pushInbound(req.Payload), then on to the acknowledgement (UDP) or back to the loop (TCP)
 ProcPush ==
@@ -295,7 +298,7 @@ ProcPush ==
   /\ srv' = IF srv.a = -1 THEN [pc |-> "proc", a |-> -1, b |-> -1] ELSE [pc |-> "ackout", a |-> srv.a, b |-> -1]
   /\ act' = Act("internal", 0)
   /\ UNCHANGED <<now, chan, sndSeq, rcvSeq, conn, mu, muq, snd, offers, hbNext, hb, hbOffers, failSig, ackOpen, inbOpen, done, once,
-                 closer, delivered, rxq, sockOpen, c2g, g2c, dups, losses, injs, gw, bus, nsend, ntele, nid, epoch>>
+                 closer, delivered, rxq, sockOpen, c2g, g2c, dups, losses, injs, gwf, gw, bus, nsend, ntele, nid, epoch>>
 
 ProcAckOut ==
   /\ srv.pc = "ackout"
@@ -303,7 +306,7 @@ ProcAckOut ==
   /\ srv' = [pc |-> "proc", a |-> -1, b |-> -1]
   /\ act' = Act("internal", 0)
   /\ UNCHANGED <<now, chan, sndSeq, rcvSeq, conn, mu, muq, snd, offers, hbNext, hb, hbOffers, failSig, ackOpen, inbOpen, done, once,
-                 closer, starting, queued, reader, got, delivered, rxq, sockOpen, g2c, dups, losses, injs, gw, bus, nsend, ntele, nid, epoch>>
+                 closer, starting, queued, reader, got, delivered, rxq, sockOpen, g2c, dups, losses, injs, gwf, gw, bus, nsend, ntele, nid, epoch>>
 
 ProcDiscRes ==
   /\ srv.pc = "discres"
@@ -311,7 +314,7 @@ ProcDiscRes ==
   /\ srv' = [pc |-> "reconn", a |-> -1, b |-> -1]
   /\ act' = Act("internal", 0)
   /\ UNCHANGED <<now, chan, sndSeq, rcvSeq, conn, mu, muq, snd, offers, hbNext, hb, hbOffers, failSig, ackOpen, inbOpen, done, once,
-                 closer, starting, queued, reader, got, delivered, rxq, sockOpen, g2c, dups, losses, injs, gw, bus, nsend, ntele, nid, epoch>>
+                 closer, starting, queued, reader, got, delivered, rxq, sockOpen, g2c, dups, losses, injs, gwf, gw, bus, nsend, ntele, nid, epoch>>
 
 \* process() returned errDisconnected / errHeartbeatFailed: serve calls requestConn
 ServeReconnect ==
@@ -325,7 +328,7 @@ ServeReconnect ==
   /\ hb' = {} /\ hbOffers' = {} /\ failSig' = FALSE /\ hbNext' = -1    \* close(heartbeat): workers end
   /\ act' = Act("internal", 0)
   /\ UNCHANGED <<now, chan, sndSeq, rcvSeq, mu, muq, snd, done, once, closer, got, delivered, rxq, sockOpen,
-                 g2c, dups, losses, injs, gw, bus, nsend, ntele, nid, epoch>>
+                 g2c, dups, losses, injs, gwf, gw, bus, nsend, ntele, nid, epoch>>
 
 \* process() returned nil or errInboundClosed, or done: serve returns
 ServeExit ==
@@ -334,7 +337,7 @@ ServeExit ==
   /\ hb' = {} /\ hbOffers' = {} /\ failSig' = FALSE /\ hbNext' = -1
   /\ ev' = NoEv /\ act' = Act("internal", 0)
   /\ UNCHANGED <<now, chan, sndSeq, rcvSeq, conn, mu, muq, snd, done, once, closer, got, delivered, rxq, sockOpen,
-                 c2g, g2c, dups, losses, injs, gw, bus, nsend, ntele, nid, epoch>>
+                 c2g, g2c, dups, losses, injs, gwf, gw, bus, nsend, ntele, nid, epoch>>
 
 -----------------------------------------------------------------------------
 (* heartbeat *)
@@ -347,7 +350,7 @@ ProcHbTick ==
   /\ Tx(Frame("ConnStateReq", chan, -1, 0, -1))
   /\ act' = Act("timer", 0)
   /\ UNCHANGED <<now, srv, chan, sndSeq, rcvSeq, conn, mu, muq, snd, offers, hbOffers, failSig, ackOpen, inbOpen, done, once, closer,
-                 starting, queued, reader, got, delivered, rxq, sockOpen, g2c, dups, losses, injs, gw, bus, nsend, ntele, epoch>>
+                 starting, queued, reader, got, delivered, rxq, sockOpen, g2c, dups, losses, injs, gwf, gw, bus, nsend, ntele, epoch>>
 
 HbResend ==
   /\ \E w \in hb : /\ w.pc = "wait" /\ w.next = now
@@ -355,14 +358,14 @@ HbResend ==
                    /\ Tx(Frame("ConnStateReq", w.ch, -1, 0, -1))
   /\ act' = Act("timer", 0)
   /\ UNCHANGED <<now, srv, chan, sndSeq, rcvSeq, conn, mu, muq, snd, offers, hbNext, hbOffers, failSig, ackOpen, inbOpen, done, once,
-                 closer, starting, queued, reader, got, delivered, rxq, sockOpen, g2c, dups, losses, injs, gw, bus, nsend, ntele, nid, epoch>>
+                 closer, starting, queued, reader, got, delivered, rxq, sockOpen, g2c, dups, losses, injs, gwf, gw, bus, nsend, ntele, nid, epoch>>
 
 HbTimeout ==
   /\ \E w \in hb : /\ w.pc = "wait" /\ w.dead = now
                    /\ hb' = (hb \ {w}) \cup {[w EXCEPT !.pc = "fail"]}
   /\ ev' = NoEv /\ act' = Act("timer", 0)
   /\ UNCHANGED <<now, srv, chan, sndSeq, rcvSeq, conn, mu, muq, snd, offers, hbNext, hbOffers, failSig, ackOpen, inbOpen, done, once,
-                 closer, starting, queued, reader, got, delivered, rxq, sockOpen, c2g, g2c, dups, losses, injs, gw, bus, nsend, ntele, nid, epoch>>
+                 closer, starting, queued, reader, got, delivered, rxq, sockOpen, c2g, g2c, dups, losses, injs, gwf, gw, bus, nsend, ntele, nid, epoch>>
 
 HbTakeRes ==
   /\ \E w \in hb, o \in hbOffers :
@@ -371,13 +374,13 @@ HbTakeRes ==
        /\ hb' = IF o.st = 0 THEN hb \ {w} ELSE (hb \ {w}) \cup {[w EXCEPT !.pc = "fail"]}
   /\ ev' = NoEv /\ act' = Act("internal", 0)
   /\ UNCHANGED <<now, srv, chan, sndSeq, rcvSeq, conn, mu, muq, snd, offers, hbNext, failSig, ackOpen, inbOpen, done, once,
-                 closer, starting, queued, reader, got, delivered, rxq, sockOpen, c2g, g2c, dups, losses, injs, gw, bus, nsend, ntele, nid, epoch>>
+                 closer, starting, queued, reader, got, delivered, rxq, sockOpen, c2g, g2c, dups, losses, injs, gwf, gw, bus, nsend, ntele, nid, epoch>>
 
 HbOfferExpire ==
   /\ \E o \in hbOffers : (o.exp = now \/ done) /\ hbOffers' = hbOffers \ {o}
   /\ ev' = NoEv /\ act' = Act("timer", 0)
   /\ UNCHANGED <<now, srv, chan, sndSeq, rcvSeq, conn, mu, muq, snd, offers, hbNext, hb, failSig, ackOpen, inbOpen, done, once,
-                 closer, starting, queued, reader, got, delivered, rxq, sockOpen, c2g, g2c, dups, losses, injs, gw, bus, nsend, ntele, nid, epoch>>
+                 closer, starting, queued, reader, got, delivered, rxq, sockOpen, c2g, g2c, dups, losses, injs, gwf, gw, bus, nsend, ntele, nid, epoch>>
 
 \* a failed worker offers on `timeout`; process() takes it and returns errHeartbeatFailed
 ProcFailSignal ==
@@ -385,7 +388,7 @@ ProcFailSignal ==
   /\ srv' = [pc |-> "reconn", a |-> -1, b |-> -1]
   /\ ev' = NoEv /\ act' = Act("internal", 0)
   /\ UNCHANGED <<now, chan, sndSeq, rcvSeq, conn, mu, muq, snd, offers, hbNext, hb, hbOffers, failSig, ackOpen, inbOpen, done, once,
-                 closer, starting, queued, reader, got, delivered, rxq, sockOpen, c2g, g2c, dups, losses, injs, gw, bus, nsend, ntele, nid, epoch>>
+                 closer, starting, queued, reader, got, delivered, rxq, sockOpen, c2g, g2c, dups, losses, injs, gwf, gw, bus, nsend, ntele, nid, epoch>>
 
 -----------------------------------------------------------------------------
 (* inbound hand-off to the application *)
@@ -397,7 +400,7 @@ ParkReach ==
           ELSE /\ queued' = Append(queued, p) /\ UNCHANGED <<got, reader>>
   /\ ev' = NoEv /\ act' = Act("internal", 0)
   /\ UNCHANGED <<delivered, now, srv, chan, sndSeq, rcvSeq, conn, mu, muq, snd, offers, hbNext, hb, hbOffers, failSig, ackOpen, inbOpen, done, once,
-                 closer, rxq, sockOpen, c2g, g2c, dups, losses, injs, gw, bus, nsend, ntele, nid, epoch>>
+                 closer, rxq, sockOpen, c2g, g2c, dups, losses, injs, gwf, gw, bus, nsend, ntele, nid, epoch>>
 
 AppRecv ==
   /\ reader = "idle" /\ inbOpen
@@ -406,14 +409,14 @@ AppRecv ==
      ELSE /\ reader' = "waiting" /\ UNCHANGED <<got, queued>>
   /\ ev' = NoEv /\ act' = Act("recv", 0)
   /\ UNCHANGED <<delivered, now, srv, chan, sndSeq, rcvSeq, conn, mu, muq, snd, offers, hbNext, hb, hbOffers, failSig, ackOpen, inbOpen, done, once,
-                 closer, starting, rxq, sockOpen, c2g, g2c, dups, losses, injs, gw, bus, nsend, ntele, nid, epoch>>
+                 closer, starting, rxq, sockOpen, c2g, g2c, dups, losses, injs, gwf, gw, bus, nsend, ntele, nid, epoch>>
 
 AppRecvRet ==
   /\ reader = "got"
   /\ delivered' = Append(delivered, got) /\ reader' = "idle" /\ got' = -1
   /\ ev' = SimEv("Recv", -1, got, "") /\ act' = Act("internal", 0)
   /\ UNCHANGED <<now, srv, chan, sndSeq, rcvSeq, conn, mu, muq, snd, offers, hbNext, hb, hbOffers, failSig, ackOpen, inbOpen, done, once,
-                 closer, starting, queued, rxq, sockOpen, c2g, g2c, dups, losses, injs, gw, bus, nsend, ntele, nid, epoch>>
+                 closer, starting, queued, rxq, sockOpen, c2g, g2c, dups, losses, injs, gwf, gw, bus, nsend, ntele, nid, epoch>>
 
 -----------------------------------------------------------------------------
 (* Close: once.Do(requestDisc; close(done); wait.Wait(); sock.Close()) *)
@@ -423,7 +426,7 @@ CloseEnter ==
   /\ closer' = "disc" /\ once' = TRUE
   /\ ev' = SimEv("CloseCall", 1, -1, "") /\ act' = Act("close", 1)
   /\ UNCHANGED <<now, srv, chan, sndSeq, rcvSeq, conn, mu, muq, snd, offers, hbNext, hb, hbOffers, failSig, ackOpen, inbOpen, done,
-                 starting, queued, reader, got, delivered, rxq, sockOpen, c2g, g2c, dups, losses, injs, gw, bus, nsend, ntele, nid, epoch>>
+                 starting, queued, reader, got, delivered, rxq, sockOpen, c2g, g2c, dups, losses, injs, gwf, gw, bus, nsend, ntele, nid, epoch>>
 
 CloseDisc ==
   /\ closer = "disc"
@@ -431,14 +434,14 @@ CloseDisc ==
   /\ closer' = "wait" /\ done' = TRUE
   /\ act' = Act("internal", 0)
   /\ UNCHANGED <<now, srv, chan, sndSeq, rcvSeq, conn, mu, muq, snd, offers, hbNext, hb, hbOffers, failSig, ackOpen, inbOpen, once,
-                 starting, queued, reader, got, delivered, rxq, sockOpen, g2c, dups, losses, injs, gw, bus, nsend, ntele, nid, epoch>>
+                 starting, queued, reader, got, delivered, rxq, sockOpen, g2c, dups, losses, injs, gwf, gw, bus, nsend, ntele, nid, epoch>>
 
 CloseWait ==
   /\ closer = "wait" /\ srv.pc = "gone"
   /\ closer' = "returned" /\ sockOpen' = FALSE
   /\ ev' = SimEv("CloseRet", 1, -1, "") /\ act' = Act("internal", 0)
   /\ UNCHANGED <<now, srv, chan, sndSeq, rcvSeq, conn, mu, muq, snd, offers, hbNext, hb, hbOffers, failSig, ackOpen, inbOpen, done, once,
-                 starting, queued, reader, got, delivered, rxq, c2g, g2c, dups, losses, injs, gw, bus, nsend, ntele, nid, epoch>>
+                 starting, queued, reader, got, delivered, rxq, c2g, g2c, dups, losses, injs, gwf, gw, bus, nsend, ntele, nid, epoch>>
 
 -----------------------------------------------------------------------------
 (* environment: network, gateway, adversary, clock *)
@@ -480,7 +483,25 @@ NetToGw ==
                /\ ev' = NoEv /\ UNCHANGED bus
           [] OTHER -> /\ ev' = NoEv /\ UNCHANGED <<gw, g2c, bus>>
   /\ UNCHANGED <<now, srv, chan, sndSeq, rcvSeq, conn, mu, muq, snd, offers, hbNext, hb, hbOffers, failSig, ackOpen, inbOpen, done, once,
-                 closer, starting, queued, reader, got, delivered, rxq, sockOpen, dups, losses, injs, nsend, ntele, nid, epoch>>
+                 closer, starting, queued, reader, got, delivered, rxq, sockOpen, dups, losses, injs, gwf, nsend, ntele, nid, epoch>>
+
+\* the gateway misbehaves (budgeted): a heartbeat is answered with an error status, for a foreign
+\* channel or not at all; a connect request is answered "busy" or refused
+NetToGwFault ==
+  /\ gwf < GwFaultBudget
+  /\ \E f \in DOMAIN c2g :
+     /\ f.svc \in {"ConnStateReq", "ConnReq"}
+     /\ c2g' = BagDel(c2g, f)
+     /\ gwf' = gwf + 1
+     /\ \E mode \in {"silent", "err", "foreign"} :
+          /\ act' = [ActF("c2g-fault", f) EXCEPT !.g = IF mode = "silent" THEN 0 ELSE IF mode = "err" THEN 1 ELSE 2]
+          /\ g2c' = IF mode = "silent" THEN g2c
+                    ELSE IF f.svc = "ConnStateReq"
+                    THEN G2C(Frame("ConnStateRes", IF mode = "err" THEN f.ch ELSE f.ch + 7, -1, IF mode = "err" THEN 33 ELSE 0, -1))
+                    ELSE G2C(Frame("ConnRes", 0, -1, IF mode = "err" THEN 34 ELSE 36, -1))
+  /\ ev' = NoEv
+  /\ UNCHANGED <<now, srv, chan, sndSeq, rcvSeq, conn, mu, muq, snd, offers, hbNext, hb, hbOffers, failSig, ackOpen, inbOpen, done, once,
+                 closer, starting, queued, reader, got, delivered, rxq, sockOpen, dups, losses, injs, gw, bus, nsend, ntele, nid, epoch>>
 
 NetToClient ==
   /\ \E f \in DOMAIN g2c :
@@ -488,7 +509,7 @@ NetToClient ==
      /\ IF sockOpen THEN rxq' = Append(rxq, f) ELSE UNCHANGED rxq
      /\ ev' = FrEv("Rx", f) /\ act' = ActF("g2c-deliver", f)
   /\ UNCHANGED <<now, srv, chan, sndSeq, rcvSeq, conn, mu, muq, snd, offers, hbNext, hb, hbOffers, failSig, ackOpen, inbOpen, done, once,
-                 closer, starting, queued, reader, got, delivered, sockOpen, c2g, dups, losses, injs, gw, bus, nsend, ntele, nid, epoch>>
+                 closer, starting, queued, reader, got, delivered, sockOpen, c2g, dups, losses, injs, gwf, gw, bus, nsend, ntele, nid, epoch>>
 
 NetLose ==
   /\ losses < LossBudget
@@ -496,7 +517,7 @@ NetLose ==
      \/ \E f \in DOMAIN g2c : g2c' = BagDel(g2c, f) /\ act' = ActF("g2c-lose", f) /\ UNCHANGED c2g
   /\ losses' = losses + 1 /\ ev' = NoEv
   /\ UNCHANGED <<now, srv, chan, sndSeq, rcvSeq, conn, mu, muq, snd, offers, hbNext, hb, hbOffers, failSig, ackOpen, inbOpen, done, once,
-                 closer, starting, queued, reader, got, delivered, rxq, sockOpen, dups, injs, gw, bus, nsend, ntele, nid, epoch>>
+                 closer, starting, queued, reader, got, delivered, rxq, sockOpen, dups, injs, gwf, gw, bus, nsend, ntele, nid, epoch>>
 
 NetDup ==
   /\ dups < DupBudget
@@ -504,7 +525,7 @@ NetDup ==
      \/ \E f \in DOMAIN g2c : BagSize(g2c) < MaxNet /\ g2c' = BagAdd(g2c, f) /\ act' = ActF("g2c-dup", f) /\ UNCHANGED c2g
   /\ dups' = dups + 1 /\ ev' = NoEv
   /\ UNCHANGED <<now, srv, chan, sndSeq, rcvSeq, conn, mu, muq, snd, offers, hbNext, hb, hbOffers, failSig, ackOpen, inbOpen, done, once,
-                 closer, starting, queued, reader, got, delivered, rxq, sockOpen, losses, injs, gw, bus, nsend, ntele, nid, epoch>>
+                 closer, starting, queued, reader, got, delivered, rxq, sockOpen, losses, injs, gwf, gw, bus, nsend, ntele, nid, epoch>>
 
 \* the gateway forwards a bus telegram / repeats it
 GwTelegram ==
@@ -514,7 +535,7 @@ GwTelegram ==
   /\ g2c' = BagAdd(g2c, Frame("TunnelReq", gw.ch, IF UseTCP THEN 0 ELSE gw.seq, -1, 200 + ntele))
   /\ ev' = NoEv /\ act' = Act("gwtele", 200 + ntele)
   /\ UNCHANGED <<now, srv, chan, sndSeq, rcvSeq, conn, mu, muq, snd, offers, hbNext, hb, hbOffers, failSig, ackOpen, inbOpen, done, once,
-                 closer, starting, queued, reader, got, delivered, rxq, sockOpen, c2g, dups, losses, injs, bus, nsend, nid, epoch>>
+                 closer, starting, queued, reader, got, delivered, rxq, sockOpen, c2g, dups, losses, injs, gwf, bus, nsend, nid, epoch>>
 
 GwResend ==
   /\ EnableG2C /\ gw.conn /\ gw.pend # -1 /\ ~UseTCP /\ BagSize(g2c) < MaxNet
@@ -522,7 +543,7 @@ GwResend ==
   /\ g2c' = BagAdd(g2c, Frame("TunnelReq", gw.ch, gw.seq, -1, gw.pend))
   /\ ev' = NoEv /\ act' = Act("gwresend", 0)
   /\ UNCHANGED <<now, srv, chan, sndSeq, rcvSeq, conn, mu, muq, snd, offers, hbNext, hb, hbOffers, failSig, ackOpen, inbOpen, done, once,
-                 closer, starting, queued, reader, got, delivered, rxq, sockOpen, c2g, dups, losses, injs, gw, bus, nsend, ntele, nid, epoch>>
+                 closer, starting, queued, reader, got, delivered, rxq, sockOpen, c2g, dups, losses, injs, gwf, gw, bus, nsend, ntele, nid, epoch>>
 
 GwGiveUp ==
   /\ EnableHB /\ gw.conn /\ epoch < MaxEpoch /\ BagSize(g2c) < MaxNet
@@ -530,18 +551,23 @@ GwGiveUp ==
   /\ g2c' = BagAdd(g2c, Frame("DiscReq", gw.ch, -1, 0, -1))
   /\ ev' = NoEv /\ act' = Act("gwgiveup", 0)
   /\ UNCHANGED <<now, srv, chan, sndSeq, rcvSeq, conn, mu, muq, snd, offers, hbNext, hb, hbOffers, failSig, ackOpen, inbOpen, done, once,
-                 closer, starting, queued, reader, got, delivered, rxq, sockOpen, c2g, dups, losses, injs, bus, nsend, ntele, nid, epoch>>
+                 closer, starting, queued, reader, got, delivered, rxq, sockOpen, c2g, dups, losses, injs, gwf, bus, nsend, ntele, nid, epoch>>
 
 \* adversarial acknowledgements: any channel / nearby sequence number / status
 Inject ==
   /\ Adversary /\ epoch > 0 /\ Len(rxq) < 2 /\ injs < InjBudget /\ sockOpen
   /\ injs' = injs + 1
-  /\ \E c \in {chan, chan + 7}, d \in {M - 1, 0, 1}, s \in {0, 41} :
-       LET f == Frame("TunnelRes", c, (sndSeq + d) % M, s, -1) IN
-       /\ rxq' = Append(rxq, f) /\ ev' = FrEv("Rx", f)
-       /\ act' = ActF("inject", Frame("TunnelRes", IF c = chan THEN 1 ELSE 0, IF d = M - 1 THEN -1 ELSE d, s, -1))
+  /\ \/ \E c \in {chan, chan + 7}, d \in {M - 1, 0, 1}, s \in {0, 41} :
+          LET f == Frame("TunnelRes", c, (sndSeq + d) % M, s, -1) IN
+          /\ rxq' = Append(rxq, f) /\ ev' = FrEv("Rx", f)
+          /\ act' = ActF("inject", Frame("TunnelRes", IF c = chan THEN 1 ELSE 0, IF d = M - 1 THEN -1 ELSE d, s, -1))
+     \/ /\ AdvReq
+        /\ \E c \in {chan, chan + 7}, d \in {M - 2, M - 1, 0, 1} :
+          LET f == Frame("TunnelReq", c, (rcvSeq + d) % M, -1, 300 + injs) IN
+          /\ rxq' = Append(rxq, f) /\ ev' = FrEv("Rx", f)
+          /\ act' = ActF("inject", Frame("TunnelReq", IF c = chan THEN 1 ELSE 0, IF d >= M - 2 THEN d - M ELSE d, -1, 300 + injs))
   /\ UNCHANGED <<now, srv, chan, sndSeq, rcvSeq, conn, mu, muq, snd, offers, hbNext, hb, hbOffers, failSig, ackOpen, inbOpen, done, once,
-                 closer, starting, queued, reader, got, delivered, sockOpen, c2g, g2c, dups, losses, gw, bus, nsend, ntele, nid, epoch>>
+                 closer, starting, queued, reader, got, delivered, sockOpen, c2g, g2c, dups, losses, gwf, gw, bus, nsend, ntele, nid, epoch>>
 
 \* time passes only when no timer is due now
 TimerDue ==
@@ -575,7 +601,7 @@ Tick ==
   /\ now' = now + 1
   /\ ev' = NoEv /\ act' = Act("tick", 1)
   /\ UNCHANGED <<srv, chan, sndSeq, rcvSeq, conn, mu, muq, snd, offers, hbNext, hb, hbOffers, failSig, ackOpen, inbOpen, done, once, closer,
-                 starting, queued, reader, got, delivered, rxq, sockOpen, c2g, g2c, dups, losses, injs, gw, bus, nsend, ntele, nid, epoch>>
+                 starting, queued, reader, got, delivered, rxq, sockOpen, c2g, g2c, dups, losses, injs, gwf, gw, bus, nsend, ntele, nid, epoch>>
 
 Next ==
   \/ ConnResend \/ ConnTimeout \/ ConnTake \/ ConnLock
@@ -585,7 +611,7 @@ Next ==
   \/ ProcHbTick \/ HbResend \/ HbTimeout \/ HbTakeRes \/ HbOfferExpire \/ ProcFailSignal
   \/ ProcPush \/ ParkReach \/ AppRecv \/ AppRecvRet
   \/ CloseEnter \/ CloseDisc \/ CloseWait
-  \/ NetToGw \/ NetToClient \/ NetLose \/ NetDup \/ GwTelegram \/ GwResend \/ GwGiveUp \/ Inject
+  \/ NetToGw \/ NetToGwFault \/ NetToClient \/ NetLose \/ NetDup \/ GwTelegram \/ GwResend \/ GwGiveUp \/ Inject
   \/ Tick
 
 Spec == Init /\ [][Next]_vars
